@@ -12,7 +12,8 @@
 (* behaviour is printed (from the pts snapshot kept in hist), not for every candidate step.  *)
 EXTENDS Index, Json
 
-CONSTANTS GenLen
+CONSTANTS GenLen,
+          Profile    \* "mixed" | "churn" (drops, re-creations and restarts dominate: for the replay with automatic compactions)
 VARIABLE hist
 gvars == <<vars, hist>>
 
@@ -89,9 +90,12 @@ ArgsLog      == {sh \in PhysShards : Head(tsi[sh]).add \cup Head(tsi[sh]).del # 
 ArgsCompact  == {sh \in PhysShards : \E l \in 1..MaxLevel : CanCompact(tsi[sh], l)}
 ArgsSnap     == {sh \in Shards : \E s \in U : cache[sh][s] # {}}
 
-Bag == << "create", "create", "create", "create", "create", "recreate", "recreate",
-          "drop", "drop", "drop", "dropany", "dropm",
-          "log", "log", "log", "compact", "compact", "compact", "sfc", "snap", "snap", "reopen", "reopen" >>
+Bag == IF Profile = "churn"
+       THEN << "create", "create", "create", "create", "recreate", "recreate", "recreate",
+               "drop", "drop", "drop", "drop", "dropm", "log", "compact", "sfc", "snap", "reopen", "reopen", "reopen" >>
+       ELSE << "create", "create", "create", "create", "create", "recreate", "recreate",
+               "drop", "drop", "drop", "dropany", "dropm",
+               "log", "log", "log", "log", "compact", "compact", "compact", "compact", "sfc", "snap", "snap", "reopen", "reopen" >>
 
 Pick(S) == RandomElement(S)
 
